@@ -19,9 +19,48 @@
    as long as the guard needs and retries a timed-out echo until the third attempt. *)
 EXTENDS Integers, Sequences, TLC
 
-CONSTANTS Gaps, Echoes, T0s, MaxEchoes
-VARIABLES now, pc, attempts, hasTrig, lastTrig, lastDone, waited, prevGap, hasDist, lastDist, echo, calls, ret,  \* the sensor
-          callEchoes, goodBefore, nEch                                                                           \* history
+CONSTANTS
+    \* @type: Set(Int);
+    Gaps,
+    \* @type: Set(Int);
+    Echoes,
+    \* @type: Set(Int);
+    T0s,
+    \* @type: Int;
+    MaxEchoes
+VARIABLES                                          \* the sensor
+    \* @type: Int;
+    now,
+    \* @type: Str;
+    pc,
+    \* @type: Int;
+    attempts,
+    \* @type: Bool;
+    hasTrig,
+    \* @type: Int;
+    lastTrig,
+    \* @type: Int;
+    lastDone,
+    \* @type: Int;
+    waited,
+    \* @type: Int;
+    prevGap,
+    \* @type: Bool;
+    hasDist,
+    \* @type: Int;
+    lastDist,
+    \* @type: Int;
+    echo,
+    \* @type: Int;
+    calls,
+    \* @type: Int;
+    ret,
+    \* @type: Seq(Int);
+    callEchoes,                                    \* history
+    \* @type: Int;
+    goodBefore,
+    \* @type: Int;
+    nEch
 uvars == <<now, pc, attempts, hasTrig, lastTrig, lastDone, waited, prevGap, hasDist, lastDist, echo, calls, ret>>
 vars == <<uvars, callEchoes, goodBefore, nEch>>
 
@@ -36,12 +75,15 @@ Abs(x) == IF x < 0 THEN -x ELSE x
 Near(v, d) == Abs(v * 200 - d) <= Tol(d)       \* printed value v (hundredths) agrees with distance d
 Hund(d) == (d + 100) \div 200                  \* distance d printed with two decimals
 
+\* @type: (Str, Int, Int) => { k: Str, v: Int, t: Int };
 Ev(k, v, t) == [k |-> k, v |-> v, t |-> t]
 Rec == [now |-> now, pc |-> pc, attempts |-> attempts, hasTrig |-> hasTrig, lastTrig |-> lastTrig, lastDone |-> lastDone,
         waited |-> waited, prevGap |-> prevGap, hasDist |-> hasDist, lastDist |-> lastDist, echo |-> echo,
         calls |-> calls, ret |-> ret]
+\* @type: (Int) => { now: Int, pc: Str, attempts: Int, hasTrig: Bool, lastTrig: Int, lastDone: Int, waited: Int, prevGap: Int, hasDist: Bool, lastDist: Int, echo: Int, calls: Int, ret: Int };
 InitRec(t0) == [now |-> t0, pc |-> "idle", attempts |-> 0, hasTrig |-> FALSE, lastTrig |-> 0, lastDone |-> 0, waited |-> 0,
                 prevGap |-> -1, hasDist |-> FALSE, lastDist |-> NoEchoD, echo |-> 0, calls |-> 0, ret |-> 0]
+\* @type: ({ now: Int, pc: Str, attempts: Int, hasTrig: Bool, lastTrig: Int, lastDone: Int, waited: Int, prevGap: Int, hasDist: Bool, lastDist: Int, echo: Int, calls: Int, ret: Int }) => Bool;
 SetRec(r) == /\ now' = r.now /\ pc' = r.pc /\ attempts' = r.attempts /\ hasTrig' = r.hasTrig /\ lastTrig' = r.lastTrig
              /\ lastDone' = r.lastDone /\ waited' = r.waited /\ prevGap' = r.prevGap /\ hasDist' = r.hasDist
              /\ lastDist' = r.lastDist /\ echo' = r.echo /\ calls' = r.calls /\ ret' = r.ret
@@ -49,8 +91,10 @@ SetRec(r) == /\ now' = r.now /\ pc' = r.pc /\ attempts' = r.attempts /\ hasTrig'
 -----------------------------------------------------------------------------
 (* The step relation.  pc: idle -call-> guard -(wait)*-> guard -trig-> echo -echo(good)-> done -ret-> idle
                                                                        -echo(timeout)-> guard -(retry | ret = fallback) *)
+\* @type: ({ now: Int, pc: Str, attempts: Int, hasTrig: Bool, lastTrig: Int, lastDone: Int, waited: Int, prevGap: Int, hasDist: Bool, lastDist: Int, echo: Int, calls: Int, ret: Int }, Int) => Bool;
 TooSoon(s, t) == s.hasTrig /\ t > 0 /\ t - s.lastTrig < MinIntervalMs     \* a second trigger within 60 ms, clock running
 
+\* @type: ({ now: Int, pc: Str, attempts: Int, hasTrig: Bool, lastTrig: Int, lastDone: Int, waited: Int, prevGap: Int, hasDist: Bool, lastDist: Int, echo: Int, calls: Int, ret: Int }, { k: Str, v: Int, t: Int }) => { now: Int, pc: Str, attempts: Int, hasTrig: Bool, lastTrig: Int, lastDone: Int, waited: Int, prevGap: Int, hasDist: Bool, lastDist: Int, echo: Int, calls: Int, ret: Int };
 Apply(s, e) ==
     CASE e.k = "call" -> [s EXCEPT !.now = e.t, !.pc = "guard", !.attempts = 0, !.waited = 0]
       [] e.k = "wait" -> [s EXCEPT !.now = e.t, !.waited = @ + e.v]
@@ -62,6 +106,7 @@ Apply(s, e) ==
       [] e.k = "ret"  -> [s EXCEPT !.now = e.t, !.pc = "idle", !.calls = @ + 1, !.ret = e.v]
       [] OTHER -> s
 
+\* @type: ({ now: Int, pc: Str, attempts: Int, hasTrig: Bool, lastTrig: Int, lastDone: Int, waited: Int, prevGap: Int, hasDist: Bool, lastDist: Int, echo: Int, calls: Int, ret: Int }, { k: Str, v: Int, t: Int }) => Str;
 Diff(s, e) ==
     IF e.t < s.now THEN "clock-went-backwards"
     ELSE CASE e.k = "call" -> IF s.pc # "idle" THEN "call-inside-call" ELSE ""
@@ -81,13 +126,16 @@ Diff(s, e) ==
                          ELSE (IF e.v * 200 = NoEchoD THEN "" ELSE "fallback-not-400")
       [] OTHER -> "unknown-event"
 
+\* @type: ({ now: Int, pc: Str, attempts: Int, hasTrig: Bool, lastTrig: Int, lastDone: Int, waited: Int, prevGap: Int, hasDist: Bool, lastDist: Int, echo: Int, calls: Int, ret: Int }, { k: Str, v: Int, t: Int }, { now: Int, pc: Str, attempts: Int, hasTrig: Bool, lastTrig: Int, lastDone: Int, waited: Int, prevGap: Int, hasDist: Bool, lastDist: Int, echo: Int, calls: Int, ret: Int }) => Bool;
 Step(s, e, t) == Diff(s, e) = "" /\ t = Apply(s, e)
+\* @type: ({ now: Int, pc: Str, attempts: Int, hasTrig: Bool, lastTrig: Int, lastDone: Int, waited: Int, prevGap: Int, hasDist: Bool, lastDist: Int, echo: Int, calls: Int, ret: Int }, { k: Str, v: Int, t: Int }, { now: Int, pc: Str, attempts: Int, hasTrig: Bool, lastTrig: Int, lastDone: Int, waited: Int, prevGap: Int, hasDist: Bool, lastDist: Int, echo: Int, calls: Int, ret: Int }) => Str;
 StepDiff(s, e, t) == IF Diff(s, e) # "" THEN Diff(s, e) ELSE IF t # Apply(s, e) THEN "state" ELSE ""
 
 (* Known deviation of the pinned tree, matched exactly (known/C15.json: ultrasonic-zero-clock-sentinel): the helper
    uses "last trigger time = 0" as "never triggered".  If the previous measurement completed while millis() still
    read 0, the guard is skipped: the next trigger comes unguarded (no wait) although the clock is running and the
    previous trigger is less than 60 ms old. *)
+\* @type: ({ now: Int, pc: Str, attempts: Int, hasTrig: Bool, lastTrig: Int, lastDone: Int, waited: Int, prevGap: Int, hasDist: Bool, lastDist: Int, echo: Int, calls: Int, ret: Int }, { k: Str, v: Int, t: Int }) => Bool;
 KnownZeroSentinel(s, e) ==
     e.k = "trig" /\ s.pc = "guard" /\ s.attempts < MaxAttempts /\ e.v >= MinPulseUs
     /\ TooSoon(s, e.t) /\ s.lastTrig = 0 /\ s.lastDone = 0 /\ s.waited = 0
@@ -98,6 +146,7 @@ Init == /\ now \in T0s /\ pc = "idle" /\ attempts = 0 /\ hasTrig = FALSE /\ last
         /\ prevGap = -1 /\ hasDist = FALSE /\ lastDist = NoEchoD /\ echo = 0 /\ calls = 0 /\ ret = 0
         /\ callEchoes = <<>> /\ goodBefore = 0 /\ nEch = 0
 
+\* @type: ({ k: Str, v: Int, t: Int }) => Bool;
 Do(e) == Diff(Rec, e) = "" /\ SetRec(Apply(Rec, e))
 Hist == UNCHANGED <<callEchoes, goodBefore, nEch>>
 Need == IF hasTrig /\ now - lastTrig < MinIntervalMs THEN MinIntervalMs - (now - lastTrig) ELSE 0
